@@ -153,10 +153,13 @@ def run_set(res, harnesses, timeout, mem_gb=16, jobs=None, known=(), hunt=()):
     """harnesses: list of qualified names. Fills res (common.Result). known: list of
     (harness-name-regex, failed-check-regex, text) describing findings listed in known-findings.json."""
     build()
-    jobs = jobs or max(1, min(NCPU, len(harnesses)))
+    # harnesses: qualified names, or (name, timeout_s, mem_gb) triples for per-harness budgets
+    items = [h if isinstance(h, tuple) else (h, timeout, mem_gb) for h in harnesses]
+    harnesses = [h[0] for h in items]
+    jobs = jobs or max(1, min(NCPU, len(items)))
     t0 = time.time()
     with ThreadPoolExecutor(jobs) as ex:
-        results = list(ex.map(lambda h: run_harness(h, timeout, mem_gb), harnesses))
+        results = list(ex.map(lambda h: run_harness(h[0], h[1], h[2]), items))
     for r in results:
         st = r["status"]
         if st == "ok":
